@@ -36,3 +36,29 @@ Definition prim_parse_usize (s : str) : result N ParseIntError :=
   | Err IntEmpty => Err ParseIntError_Empty
   | Err IntPosOverflow => Err ParseIntError_PosOverflow
   end.
+
+(* ---- lens mode (Generated/ScanTreeMut.v): a `&mut` reference INTO a document is the pair of the content it points at
+   and the function writing a new content back into the whole document.  [lens_root] is `&mut doc` itself; the
+   constructors below are the only ways the crate derives one reference from another. *)
+Definition lens (T : Type) : Type := (T * (T -> value))%type.
+Definition lens_root (d : value) : lens value := (d, fun x => x).
+Definition lens_set {T} (l : lens T) (x : T) : lens T := (x, snd l).
+(* `match r { Value::Array(a) => .. }` / `Value::Object(m)` with r : &mut Value *)
+Definition lens_arr (l : lens value) (a : list value) : lens (list value) := (a, fun a' => snd l (Arr a')).
+Definition lens_obj (l : lens value) (m : obj) : lens obj := (m, fun m' => snd l (Obj m')).
+(* `&mut a[i]` : panics out of range *)
+Definition lens_index (l : lens (list value)) (i : N) : outcome (lens value) :=
+  match nth_N (fst l) i with
+  | Some x => Ret (x, fun x' => snd l (set_nth (N.to_nat i) x' (fst l)))
+  | None => Panic
+  end.
+(* `m.get_mut(key)` *)
+Definition lens_get_mut (o : lens obj) (k : str) : option (lens value) :=
+  match obj_lookup k (fst o) with
+  | Some c => Some (c, fun x' => snd o (obj_insert k x' (fst o)))
+  | None => None
+  end.
+(* `m.entry(key)` : Occupied holds the reference `into_mut()` gives, Vacant the map and the key `insert` will use *)
+Inductive Entry := Entry_Occupied (e : lens value) | Entry_Vacant (e : lens obj * str).
+Definition lens_entry (o : lens obj) (k : str) : Entry :=
+  match lens_get_mut o k with Some l => Entry_Occupied l | None => Entry_Vacant (o, k) end.
